@@ -1,5 +1,9 @@
-From SplVerif Require Import Lib.Base Resolution.Seeds Resolution.Account Resolution.Proofs Props.C08.
+From SplVerif Require Import Lib.Base Tlv.Model Resolution.Seeds Resolution.Account Resolution.Proofs MetaList.Model MetaList.Stored Props.C08.
+From Coq Require Import Permutation.
 Local Open Scope N_scope.
 (* PINS *)
 Check C08_agree : forall find_pda fetch pool cfgs ix pid infos metas, fetch_matches fetch pool -> Forall2 (fun m i => m_key m = i_key i /\ fetch (i_key i) = Ok (Some (i_data i))) metas infos -> match cpi_loop find_pda pool cfgs ix pid infos metas with | Ok (ms, infos') => add_offchain find_pda fetch cfgs ix pid metas = Ok ms /\ (exists app, ms = metas ++ app /\ length app = length cfgs) /\ exists added, infos' = infos ++ added /\ map i_key added = map m_key (skipn (length metas) ms) | Err _ => exists e, add_offchain find_pda fetch cfgs ix pid metas = Err e | Panic => add_offchain find_pda fetch cfgs ix pid metas = Panic end.
 Check C08_pool_order : forall find_pda p1 p2 cfgs ix pid, pools_equiv p1 p2 -> forall infos1 infos2 metas, kd_of infos1 = kd_of infos2 -> match cpi_loop find_pda p1 cfgs ix pid infos1 metas, cpi_loop find_pda p2 cfgs ix pid infos2 metas with | Ok (ms1, i1), Ok (ms2, i2) => ms1 = ms2 /\ kd_of i1 = kd_of i2 | Err _, Err _ => True | Panic, Panic => True | _, _ => False end.
+Check C08_permuted_pool : forall pool pool', distinct_keys pool -> Permutation pool pool' -> pools_equiv pool pool'.
+Check C08_cpi_total : forall find_pda pool data t ix pid infos metas, add_cpi_data find_pda pool data t ix pid infos metas <> Panic.
+Check C08_offchain_total : forall find_pda fetch data t ix pid metas, (forall k, fetch k <> Panic) -> add_offchain_data find_pda fetch data t ix pid metas <> Panic.
